@@ -51,6 +51,7 @@ def grad_diff(ga, gb):
 class StepMonitor:
     def __init__(self, ctx, sig, case):
         self.ctx, self.sig, self.case = ctx, sig, case
+        self.last = None
         self.step = 0
         self.ema = None  # monitor's own exponential baseline state
         self.stop = False
@@ -81,6 +82,7 @@ class StepMonitor:
                 self.v("rollout_weight", f"d {what} / d log-likelihood of rollout {r} is {float(wa.reshape(-1)[r]):.6g}, the reference surrogate weights it {float(wb.reshape(-1)[r]):.6g}")
                 return False
         ga, gb = grads(loss_lib, ps), grads(loss_ref, ps)
+        self.last = (ps, [None if g is None else g.detach().clone() for g in gb])  # what must reach .grad
         d, s = grad_diff(ga, gb)
         ctx.count("c16_gradients_compared")
         if d > 2e-2 * max(1e-3, s) + 1e-6:
@@ -89,6 +91,31 @@ class StepMonitor:
         if s > 0:
             ctx.count("c16_nonzero_gradients")
         return True
+
+
+def check_dot_grad(mon, what):
+    """after the real backward pass: the gradient that REACHED the parameters (.grad, what the optimizer consumes) must be
+    the gradient of this step's reference surrogate (stale / accumulated gradients show up here, not in autograd.grad)."""
+    if mon.stop or mon.last is None:
+        return
+    ps, gref = mon.last
+    mon.last = None
+    have = [p.grad for p in ps]
+    d, s = grad_diff(have, gref)
+    mon.ctx.evaluation()
+    mon.ctx.count("c16_dot_grad_checked")
+    if d > 2e-2 * max(1e-3, s) + 1e-6:
+        mon.v("param_grad_after_backward", f"after the backward pass of the {what}, .grad of the parameters differs from the gradient of this step's reference surrogate by {d:.3g} (scale {s:.3g}): stale or accumulated gradients reach the optimizer")
+
+
+def hook_after_backward(model, mon, what):
+    orig = model.on_after_backward
+
+    def wrapped(*a, **kw):
+        check_dot_grad(mon, what)
+        return orig(*a, **kw)
+
+    model.on_after_backward = wrapped
 
 
 def hook_reinforce(model, mon, kind, B_hint=None):
@@ -297,7 +324,9 @@ def hook_ppo(model, mon):
                 mon.compare(loss, ref, params_of(pol, critic), what="PPO loss", ll=ll)
                 mon.ctx.count("c16_ppo_minibatches")
                 mon.ctx.nontrivial_case(dict(c=mon.case, step=mon.step))
-        return orig(loss, *a, **kw)
+        out = orig(loss, *a, **kw)
+        check_dot_grad(mon, "PPO mini-batch loss")
+        return out
 
     model.manual_backward = wrapped
 
@@ -330,20 +359,24 @@ def case(ctx, case):
         if b == "rollout":
             mon.sig = dict(mon.sig, warmup_epochs_gt_1=bool(case.get("warm", 1) > 1))
         hook_reinforce(model, mon, b)
+        hook_after_backward(model, mon, "REINFORCE loss")
     elif kind == "a2c":
         pol = big()
         model = M.A2C(env, pol, **{k: v for k, v in kw.items() if k != "optimizer_kwargs"})
         hook_reinforce(model, mon, "critic")
+        hook_after_backward(model, mon, "A2C loss")
     elif kind == "pomo":
         pol = policies.make("am_instnorm", env, seed=seed % 7)
         pol.train()
         model = M.POMO(env, pol, num_starts=case.get("S", 3), num_augment=8, **kw)
         hook_reinforce(model, mon, "shared")
+        hook_after_backward(model, mon, "POMO loss")
     elif kind == "symnco":
         pol = policies.make("symnco", env, seed=seed % 7)
         pol.train()
         model = M.SymNCO(env, pol, num_starts=case.get("S", 0), num_augment=case.get("A", 4), **kw)
         hook_symnco(model, mon)
+        hook_after_backward(model, mon, "SymNCO loss")
     elif kind == "ppo":
         pol = big()
         model = M.PPO(env, pol, mini_batch_size=case.get("mb", 3), ppo_epochs=2, normalize_adv=case.get("norm_adv", False), **kw)
